@@ -751,9 +751,11 @@ def _rows_of_dicts(lst):
 def _write_result(claim, case, drv, s1, s2, texts, dens, same, dom=True, extra_tags=()):
     tags = base_tags(case, s1, s2) + list(extra_tags)
     detail = dict(texts=[str(t)[:3000] for t in texts], denotations=[str(d)[:3000] for d in dens], chart=s1, permuted=s2)
-    # the correspondence of the writer models is C01/C03/C05/C06's; here: both texts have a denotation at all
-    agree = all(d is not None for d in dens) or (texts[0][0] == "err" and texts[1][0] == "err")
-    return res(claim, same or not dom, agree, dom, tags, reordered(s1, s2), detail)
+    # the correspondence of the writer models is C01/C03/C05/C06's.  A text without a by-the-book meaning on BOTH
+    # sides (or a writer that raises on both) is not a dependence on row order: tagged, nothing demanded.
+    if all(d is None for d in dens):
+        return res(claim, True, True, False, tags + ["no-denotation-on-both-sides"], False, detail)
+    return res(claim, same or not dom, True, dom, tags, reordered(s1, s2), detail)
 
 
 def run_write_osu(case, drv):
